@@ -410,6 +410,28 @@ struct World<'a> {
   eps: Vec<EpRt>,
   sent: Vec<Vec<Sent>>, // per endpoint index (writers)
   domain: u16,
+  /// secure leg: (governance fixture name, /verif/fixtures/c07sec); every participant gets the builtin plugins
+  sec: Option<(String, std::path::PathBuf)>,
+}
+
+/// The library's public security configuration takes a directory with fixed file names: make one per participant.
+#[cfg(feature = "security")]
+fn security_dir(gov: &str, fixtures: &std::path::Path, p: usize) -> Result<std::path::PathBuf, String> {
+  static N: std::sync::atomic::AtomicU64 = std::sync::atomic::AtomicU64::new(0);
+  let d = std::env::temp_dir().join(format!("vcheck-c07sec-{}-{}", std::process::id(), N.fetch_add(1, std::sync::atomic::Ordering::SeqCst)));
+  std::fs::create_dir_all(&d).map_err(|e| format!("{e}"))?;
+  let id = p % 4 + 1;
+  for (from, to) in [
+    ("identity_ca.cert.pem".to_string(), "identity_ca.cert.pem"),
+    (format!("p{id}_cert.pem"), "cert.pem"),
+    (format!("p{id}_key.pem"), "key.pem"),
+    ("permissions_ca.cert.pem".to_string(), "permissions_ca.cert.pem"),
+    (format!("gov_{gov}.p7s"), "governance.p7s"),
+    ("permissions.p7s".to_string(), "permissions.p7s"),
+  ] {
+    std::fs::copy(fixtures.join(&from), d.join(to)).map_err(|e| format!("fixture {from}: {e}"))?;
+  }
+  Ok(d)
 }
 
 fn qos_of(e: &EpSpec) -> QosPolicies {
@@ -460,6 +482,19 @@ impl<'a> World<'a> {
 
   fn start_part(&mut self, p: usize) {
     let domain = self.domain;
+    #[cfg(feature = "security")]
+    if let Some((gov, fixtures)) = self.sec.clone() {
+      self.parts[p].pending = Some(std::thread::spawn(move || {
+        let d = security_dir(&gov, &fixtures, p)?;
+        let r = rustdds::DomainParticipantBuilder::new(domain)
+          .builtin_security(rustdds::DomainParticipantSecurityConfigFiles::with_ros_default_names(&d, String::new()))
+          .build()
+          .map_err(|e| format!("{e:?}"));
+        let _ = std::fs::remove_dir_all(&d);
+        r
+      }));
+      return;
+    }
     self.parts[p].pending = Some(std::thread::spawn(move || DomainParticipant::new(domain).map_err(|e| format!("{e:?}"))));
   }
 
@@ -704,6 +739,10 @@ pub fn scenario_json(sc: &Sc7) -> Value {
 
 /// Runs one scenario. Violations go to `acc`; the scenario stops at the first one.
 pub fn run_scenario(sc: &Sc7, domain: u16, acc: &mut Acc, tag: &Value, uniq: u64) -> Out7 {
+  run_scenario_sec(sc, None, domain, acc, tag, uniq)
+}
+
+pub fn run_scenario_sec(sc: &Sc7, sec: Option<(String, std::path::PathBuf)>, domain: u16, acc: &mut Acc, tag: &Value, uniq: u64) -> Out7 {
   let mut out = Out7 {
     completed: false,
     sig: fnv64(format!("{sc:?}").as_bytes()),
@@ -736,6 +775,7 @@ pub fn run_scenario(sc: &Sc7, domain: u16, acc: &mut Acc, tag: &Value, uniq: u64
       .collect(),
     sent: (0..sc.eps.len()).map(|_| vec![]).collect(),
     domain,
+    sec,
   };
   let (_, dropped0) = net::counters();
   macro_rules! abort {
@@ -866,7 +906,8 @@ pub fn run_scenario(sc: &Sc7, domain: u16, acc: &mut Acc, tag: &Value, uniq: u64
       Some(s) => out.max_match_s = out.max_match_s.max(s),
       None => {
         let missing = w.missing_matches(&initial);
-        violate!("C07/match:pair-not-matched-again-after-partition-healed".to_string(), json!({"bound_s": T_MATCH_S, "partition_s": sc.partition_s, "one_sided": sc.partition_only, "pairs_unmatched_during_partition": lost_pairs, "missing": missing}));
+        // which kind of outage it was is part of the signature: after a one-sided one only one side has forgotten the other
+        violate!(format!("C07/match:pair-not-matched-again-after-partition-healed{}", if sc.partition_only.is_some() { ":one-sided-outage" } else { "" }), json!({"bound_s": T_MATCH_S, "partition_s": sc.partition_s, "one_sided": sc.partition_only, "pairs_unmatched_during_partition": lost_pairs, "missing": missing}));
       }
     }
     // what was written before the re-match is history for the re-matched pairs
@@ -1287,7 +1328,8 @@ fn final_rules(w: &World, sc: &Sc7, pre_match: &BTreeMap<(usize, usize), usize>,
               let same_part = sc.eps[a].part == sc.eps[b].part;
               return Err((
                 format!(
-                  "C07/late-join:volatile-reader-received-sample-written-before-it-existed:{}",
+                  "C07/late-join:volatile-{}reader-received-sample-written-before-it-existed:{}",
+                  if sc.eps[b].reliable { "" } else { "best-effort-" },
                   if tl_sibling {
                     "participant-also-hosts-transient-local-reader-of-that-writer".to_string()
                   } else {
